@@ -595,3 +595,19 @@ N('C04', 'combinator called for its exception inside try', THEORY,
 B('C18', 'and_neg forgets the component its walk stops at', 'smt/veriT/verit_macro.py',
   "            conj = conj.arg\n        else:\n            # the walk ended at the last conjunct (or args[0] is not a conjunction at all)\n            expected_conj.append(Not(conj))\n",
   "            conj = conj.arg\n", 'C18.R8', 'AndNegMacro.eval')
+# C18.R9: a premise or literal is taken apart only after its head connective was tested
+B('C18', 'implies without the connective test', 'smt/veriT/verit_macro.py',
+  "        if not pt.prop.is_implies():\n            raise VeriTException(\"implies\", \"premise should be an implication\")\n", "", 'C18.R9', 'verit_implies')
+B('C18', 'not_and without the negation test', 'smt/veriT/verit_macro.py',
+  "        if not pt0.prop.is_not():\n            raise VeriTException(\"not_and\", \"premise should be a negation\")\n", "", 'C18.R9', 'verit_not_and')
+B('C18', 'equiv_pos1 tests the negation but not the equivalence', 'smt/veriT/verit_macro.py',
+  "        if not arg1.is_not() or not arg1.arg.is_equals():\n            raise VeriTException(\"equiv_pos1\"", "        if not arg1.is_not():\n            raise VeriTException(\"equiv_pos1\"", 'C18.R9', 'verit_equiv_pos1')
+B('C18', 'eq_congruent_pred leading literals untested', 'smt/veriT/verit_macro.py',
+  "        if not all(arg.is_not() and arg.arg.is_equals() for arg in args[:-2]):\n            raise VeriTException(\"eq_congruent_pred\", \"all arguments except the last two should be negations of equalities\")\n", "", 'C18.R9', 'verit_eq_congruent_pred')
+B('C18', 'connective test with the wrong polarity', 'smt/veriT/verit_macro.py',
+  "        if not neg_conj.is_not():\n            raise VeriTException(\"and_pos\", \"first literal should be a negation\")", "        if neg_conj.is_not():\n            raise VeriTException(\"and_pos\", \"first literal should be a negation\")", 'C18.R9', 'verit_and_pos')
+N('C18', 'connective test written as a whole-term comparison', 'smt/veriT/verit_macro.py',
+  "        if not neg_disj.is_not():\n            raise VeriTException(\"or_pos\", \"first literal should be a negation\")", "        if neg_disj != Not(neg_disj.arg if neg_disj.is_not() else neg_disj):\n            raise VeriTException(\"or_pos\", \"first literal should be a negation\")")
+N('C18', 'connective tests merged into one condition with the comparison', 'smt/veriT/verit_macro.py',
+  "        if not pt.prop.is_implies():\n            raise VeriTException(\"implies\", \"premise should be an implication\")\n        if Or(Not(pt.prop.arg1), pt.prop.arg) == goal:",
+  "        if pt.prop.is_implies() and Or(Not(pt.prop.arg1), pt.prop.arg) == goal:")
